@@ -699,7 +699,10 @@ func (w *world) step() {
 		}
 		w.labels["with"] = true
 	case k <= 9: // Set*: changes the receiver only and returns it
-		s := genSetting(t, true)
+		// SetSkip is not drawn for a child kept by WithSkip(n): whether a later WithSkip(n) on the parent
+		// re-affirms n on that child is not stated
+		isSkipKid := n.parent != nil && n.parent.skipKids[n.skip] == n
+		s := genSetting(t, !isSkipKid)
 		w.hist = append(w.hist, fmt.Sprintf("#%d.Set%v", n.id, s))
 		got := w.doSet(n, s)
 		if n.entry == nil && got != nil {
